@@ -680,13 +680,14 @@ where
                                     });
                                 };
                                 // we can delete the buffered_lcs elem now:
-                                assert!(
-                                    buffered_lcs.contains(&lc2.id),
-                                    "buffered_lcs does not contain {} msg:{:?}",
-                                    lc2.id,
-                                    msg
-                                ); // logical error otherwise (prev lc still buffered but the newer one that is to be merged into the prev one not?)
-                                buffered_lcs.remove(&lc2.id);
+                                // lc2 might have been confirmed (and published) already while prev_lc is still buffered.
+                                // All its msgs are still buffered (behind the first msg of prev_lc) so the merge is still valid
+                                // but the published entry needs to be removed:
+                                if !buffered_lcs.remove(&lc2.id) {
+                                    lcs_w.empty(lc2.id);
+                                    lcs_w.refresh();
+                                    last_lcw_refresh_index += 1;
+                                }
                                 remove_last_lc = true;
                                 // if we have no more yet, send the other msgs: (not possible as prev_lc exists)
                             } else {
@@ -722,8 +723,15 @@ where
                                             }
                                         });
                                     };
-                                    if !buffered_lcs.remove(&lc2.id) && moved_msgs != lc2_msgs {
-                                        println!("merged lc was not in buffered_lcs or its msgs not buffered anymore!\n {:?}\n {:?} msg #{}, moved_msgs={} vs {}", prev_lc, lc2, last_msg_index, moved_msgs, lc2_msgs);
+                                    if !buffered_lcs.remove(&lc2.id) {
+                                        // lc2 was confirmed (and published) already. No msg of it was sent yet
+                                        // so remove the published entry of the now invalid lc2:
+                                        lcs_w.empty(lc2.id);
+                                        lcs_w.refresh();
+                                        last_lcw_refresh_index += 1;
+                                        if moved_msgs != lc2_msgs {
+                                            println!("merged lc was not in buffered_lcs or its msgs not buffered anymore!\n {:?}\n {:?} msg #{}, moved_msgs={} vs {}", prev_lc, lc2, last_msg_index, moved_msgs, lc2_msgs);
+                                        }
                                     }
                                     remove_last_lc = true;
                                 } else {
